@@ -55,6 +55,22 @@ fn c09(iters: usize, threads: usize, seed: u64) -> (Vec<String>, String) {
                 }
             })
         };
+        // every third round the limit changes while the threads intern (between `limit` and a lower
+        // value): the bound that must hold is the highest limit ever in force, i.e. `limit`
+        let toggler = if it % 3 == 1 {
+            let (rodeo, stop) = (rodeo.clone(), stop.clone());
+            let low = limit.saturating_sub(block).max(1);
+            Some(std::thread::spawn(move || {
+                let mut k = 0usize;
+                while !stop.load(Ordering::Relaxed) {
+                    rodeo.set_memory_limits(MemoryLimits::for_memory_usage(if k % 2 == 0 { low } else { limit }));
+                    k += 1;
+                }
+                rodeo.set_memory_limits(MemoryLimits::for_memory_usage(limit));
+            }))
+        } else {
+            None
+        };
         let mut hs = Vec::new();
         for t in 0..threads {
             let (rodeo, arrived, over) = (rodeo.clone(), arrived.clone(), over.clone());
@@ -83,6 +99,9 @@ fn c09(iters: usize, threads: usize, seed: u64) -> (Vec<String>, String) {
         }
         stop.store(true, Ordering::Relaxed);
         obs.join().unwrap();
+        if let Some(t) = toggler {
+            t.join().unwrap();
+        }
         let usage = rodeo.current_memory_usage();
         let blocks = rodeo.verif_blocks();
         let held: usize = blocks.iter().map(|b| b.1).sum();
